@@ -26,6 +26,11 @@ fn rule_r1(rng: &mut Rng, identity: bool) -> String {
     ("uB", r#"{"any": [{"matches": "uC"}, {"kind": "string"}]}"#.to_string()),
     ("uC", r#"{"kind": "call_expression"}"#.to_string()),
     ("uD", r#"{"all": [{"matches": "uA"}, {"matches": "uC"}]}"#.to_string()),
+    // rule objects with several keys: the dependencies hide in different keys of one object
+    ("uE", r#"{"all": [{"regex": "^foo"}], "any": [{"matches": "uC"}, {"matches": "uB"}]}"#.to_string()),
+    ("uF", r#"{"matches": "uC", "not": {"matches": "uG"}}"#.to_string()),
+    ("uG", r#"{"kind": "number", "nthChild": {"position": 1, "ofRule": {"matches": "uH"}}}"#.to_string()),
+    ("uH", r#"{"any": [{"kind": "number"}, {"kind": "string"}]}"#.to_string()),
   ], rng);
   let cons = p(vec![
     ("A", r#"{"regex": "^a"}"#.to_string()),
@@ -45,7 +50,7 @@ fn rule_r1(rng: &mut Rng, identity: bool) -> String {
     ("id", "\"r1\"".to_string()),
     ("language", "\"JavaScript\"".to_string()),
     ("severity", "\"warning\"".to_string()),
-    ("rule", r#"{"all": [{"pattern": "foo($A, $B)"}, {"matches": "uD"}]}"#.to_string()),
+    ("rule", r#"{"all": [{"pattern": "foo($A, $B)"}, {"matches": "uD"}, {"matches": "uE"}, {"matches": "uF"}]}"#.to_string()),
     ("utils", obj(&utils)),
     ("constraints", obj(&cons)),
     ("transform", obj(&trans)),
@@ -67,6 +72,16 @@ fn write_project(p: &Project, rng: &mut Rng, identity: bool) -> Vec<String> {
   let r2 = r#"{"id": "r2", "language": "JavaScript", "severity": "error", "message": "g", "rule": {"all": [{"pattern": "$F(1)"}, {"matches": "gA"}]}, "fix": "one($F)"}"#;
   let r3 = r#"{"id": "r3", "language": "JavaScript", "severity": "hint", "message": "baz $A", "rule": {"pattern": "baz($A)"}}"#;
   let r1 = rule_r1(rng, identity);
+  // a rule whose kinds come only through a utility that has both `all` and `any`
+  let u4 = if identity { vec![0, 1, 2] } else { permute(&[0, 1, 2], rng) };
+  let u4_items = [
+    ("kE", r#"{"all": [{"regex": "^(foo|glob)"}], "any": [{"matches": "kC"}, {"matches": "kB"}]}"#.to_string()),
+    ("kC", r#"{"kind": "call_expression"}"#.to_string()),
+    ("kB", r#"{"any": [{"matches": "kC"}, {"kind": "string"}]}"#.to_string()),
+  ];
+  let u4_obj = obj(&u4.iter().map(|i| u4_items[*i].clone()).collect::<Vec<_>>());
+  let r4 = format!(r#"{{"id": "r4", "language": "JavaScript", "severity": "warning", "message": "k", "rule": {{"matches": "kE"}}, "utils": {u4_obj}}}"#);
+  p.write("rules/r4.yml", r4.as_bytes());
   p.write(&format!("rules/{}", names[0]), r1.as_bytes());
   p.write(&format!("rules/{}", names[1]), r2.as_bytes());
   p.write(&format!("rules/{}", names[2]), r3.as_bytes());
